@@ -45,6 +45,13 @@ struct PerThreadChunkCache {
 impl PerThreadChunkCache {
     /// Save a chunk to the thread-local cache if it is large enough.
     fn store(&mut self, mut chunk: ChunkPart) {
+        #[cfg(starlark_verif)]
+        crate::verif::global_emit(
+            "cache_store",
+            chunk.begin().as_ptr() as usize as i64,
+            chunk.len().bytes() as i64,
+            chunk.chunk_ref_count() as i64,
+        );
         for next in &mut self.last_chunks {
             // Keep the largest chunks in the pool.
             if chunk.len() > next.len() {
@@ -59,6 +66,13 @@ impl PerThreadChunkCache {
             // Pick any chunk which is large enough.
             if next.len() >= len {
                 let result = mem::take(next);
+                #[cfg(starlark_verif)]
+                crate::verif::global_emit(
+                    "cache_fetch",
+                    result.begin().as_ptr() as usize as i64,
+                    result.len().bytes() as i64,
+                    result.chunk_ref_count() as i64,
+                );
                 return Some(result);
             }
         }
